@@ -1335,6 +1335,12 @@ class Project:
                     invalid_wd = os.path.join(self.workspace, job_id)
                     correct_wd = os.path.join(self.workspace, correct_id)
                     try:
+                        if os.path.lexists(correct_wd):
+                            # An empty directory would be replaced silently, but it
+                            # is (what is left of) the job with that id.
+                            raise FileExistsError(
+                                errno.EEXIST, os.strerror(errno.EEXIST), correct_wd
+                            )
                         os.replace(invalid_wd, correct_wd)
                     except OSError as error:
                         logger.critical(
